@@ -45,6 +45,15 @@ func refPatch(sts *kubeapps.StatefulSet) []byte {
 	return b
 }
 
+// floatJSON: the object's JSON after a trip through untyped decoding (numbers become float64), as in the controllers' getPatch.
+func floatJSON(o interface{}) string {
+	b, _ := json.Marshal(o)
+	var m interface{}
+	json.Unmarshal(b, &m)
+	b, _ = json.Marshal(m)
+	return string(b)
+}
+
 func i64(v int64) *int64 { return &v }
 func i32(v int32) *int32 { return &v }
 func bp(v bool) *bool    { return &v }
@@ -135,11 +144,19 @@ func randTemplate(r *rand.Rand) v1.PodTemplateSpec {
 	if r.Intn(2) == 0 {
 		t.Spec.TerminationGracePeriodSeconds = i64(int64(r.Intn(600)))
 	}
+	if r.Intn(6) == 0 {
+		// integers beyond 2^53: the built-in controller's patch went through float64 and recorded the rounded value
+		t.Spec.TerminationGracePeriodSeconds = i64([]int64{9999999999999999, 1<<53 + 1, 1<<62 + 12345}[r.Intn(3)])
+	}
 	if r.Intn(3) == 0 {
 		t.Spec.NodeSelector = map[string]string{"disk": "ssd"}
 	}
 	if r.Intn(3) == 0 {
 		t.Spec.Tolerations = []v1.Toleration{{Key: "k", Operator: v1.TolerationOpExists, Effect: v1.TaintEffectNoSchedule, TolerationSeconds: nil}}
+		if r.Intn(3) == 0 {
+			t.Spec.Tolerations = append(t.Spec.Tolerations, v1.Toleration{Key: "gone", Operator: v1.TolerationOpExists, Effect: v1.TaintEffectNoExecute,
+				TolerationSeconds: i64([]int64{300, 1<<53 + 1}[r.Intn(2)])})
+		}
 	}
 	if r.Intn(3) == 0 {
 		t.Spec.SecurityContext = &v1.PodSecurityContext{FSGroup: i64(int64(r.Intn(65535))), RunAsNonRoot: bp(true)}
@@ -223,7 +240,10 @@ func (w *World) byteCase(r *rand.Rand, id int, defaulted bool) map[string]interf
 	match, _ := statefulset.Match(asts, brev)
 	applyOK := false
 	if restored, err := statefulset.ApplyRevision(asts, brev); err == nil {
-		applyOK = apiequality.Semantic.DeepEqual(restored.Spec.Template, asts.Spec.Template)
+		applyOK = apiequality.Semantic.DeepEqual(restored.Spec.Template, asts.Spec.Template) ||
+			// integers beyond 2^53 are recorded as the built-in controller recorded them: rounded through float64 (the price
+			// of byte identity with its revisions); the comparison is then made on what a revision can hold
+			floatJSON(restored.Spec.Template) == floatJSON(asts.Spec.Template)
 	}
 	rec := map[string]interface{}{"kind": "bytes", "id": id, "defaulted": defaulted, "res": res, "same": same && match, "created": created, "podDeletes": podDeletes,
 		"adopted": adopted, "updIsBuiltin": st.UpdateRevision == brev.Name, "applyOK": applyOK, "containers": len(sts.Spec.Template.Spec.Containers)}
